@@ -221,6 +221,16 @@ pub fn stroke_possibly_scaled(dt: &mut DrawTarget, path: &Path, style: &StrokeSt
         dt.set_transform(&Transform::scale(k, k).then(t));
         crate::ops::scaled_twin(&op, k).expect("strokes have twins").apply(dt);
         st.add("strokes_drawn_under_a_power_of_two_user_scale", 1);
+    } else if hsh % 10 == 1 && !has_curves(path) && style.dash_array.is_empty() {
+        // straight, undashed strokes also far out in the f32 exponent range (user units of 2^-60 px or 2^60 px):
+        // segment lengths and widths whose squares leave the f32 range while every quantity the stroker needs
+        // stays well inside it. Not further: the determinant of the transform has to stay a normal f32 number
+        // (a transform whose determinant underflows to zero counts as singular and draws nothing).
+        let e = [-60i32, -58, -56, -48, -40, 40, 48, 56, 58, 60][(hsh / 10 % 10) as usize];
+        let k = (2.0f32).powi(e);
+        dt.set_transform(&Transform::scale(k, k).then(t));
+        crate::ops::scaled_twin(&op, k).expect("strokes have twins").apply(dt);
+        st.add("strokes_drawn_under_an_extreme_power_of_two_user_scale", 1);
     } else {
         dt.set_transform(t);
         op.apply(dt);
@@ -575,6 +585,51 @@ pub fn run(ctx: &Ctx) -> Outcome {
         co.hash = crate::prng::hash_str(&format!("{:?}{:?}", c.path, c.style));
         let (res, skipped) = run_stroke_case(&c, st);
         st.add("very_wide_strokes", 1);
+        co.nontrivial = !skipped && res.inside > 0 && res.outside > 0;
+        if let Some(v) = res.violation {
+            co.viol("C04", format!("stroke {} wide: {}", width, v));
+        }
+        if want || !co.violations.is_empty() {
+            co.desc = Some(case_desc(&c));
+        }
+        co
+    });
+
+    // very wide strokes of polylines that are almost but not quite straight (turns of 1e-4 .. 4e-3 rad): on the outer
+    // side of such a vertex the two segment rectangles part by half the width times the turn - several pixels - and the
+    // join has to fill that wedge; on the inner side they overlap. The surface looks at either side of the vertex.
+    run_cases(ctx, &mut out, SubSpec { name: "very_wide_strokes_of_almost_straight_polylines", cases: ctx.n(1_500, 40_000), exhaustive: false, max_secs: 60. }, |i, want, st| {
+        let mut rng = ctx.rng("very_wide_strokes_of_almost_straight_polylines", i);
+        let w = rng.int(24, 40) as i32;
+        let h = rng.int(24, 40) as i32;
+        let width = rng.range(1500., 9000.) as f32;
+        let hw = width as f64 / 2.;
+        let side = if rng.chance(0.5) { 1. } else { -1. };
+        // direction of the first segment: along an axis or anywhere
+        let a0 = if rng.chance(0.4) { *rng.pick(&[0.0f64, std::f64::consts::FRAC_PI_2, std::f64::consts::PI]) } else { rng.range(0., std::f64::consts::TAU) };
+        let d0 = P::new(a0.cos(), a0.sin());
+        // the vertex sits half a width away from the middle of the surface, across the stroke
+        let v = P::new(w as f64 / 2. + rng.range(-4., 4.), h as f64 / 2. + rng.range(-4., 4.)).add(d0.perp().mul(side * hw));
+        let mut pts = vec![v.sub(d0.mul(rng.range(300., 3000.))), v];
+        let mut a = a0;
+        for _ in 0..rng.int(1, 2) {
+            let turn = rng.range(1e-4, 4e-3) * if rng.chance(0.5) { 1. } else { -1. };
+            a += turn;
+            let last = pts[pts.len() - 1];
+            let len = if pts.len() == 2 && rng.chance(0.3) { rng.range(2., 12.) } else { rng.range(300., 3000.) };
+            pts.push(last.add(P::new(a.cos(), a.sin()).mul(len)));
+        }
+        let mut pb = PathBuilder::new();
+        pb.move_to(pts[0].x as f32, pts[0].y as f32);
+        for q in &pts[1..] {
+            pb.line_to(q.x as f32, q.y as f32);
+        }
+        let style = StrokeStyle { width, cap: LineCap::Butt, join: *rng.pick(&[LineJoin::Round, LineJoin::Bevel, LineJoin::Miter]), miter_limit: *rng.pick(&[1.0f32, 4., 10.]), dash_array: vec![], dash_offset: 0. };
+        let c = StrokeCase { w, h, path: pb.finish(), style, t: Transform::identity(), aa: rng.chance(0.8) };
+        let mut co = CaseOut::default();
+        co.hash = crate::prng::hash_str(&format!("{:?}{:?}", c.path, c.style));
+        let (res, skipped) = run_stroke_case(&c, st);
+        st.add("very_wide_almost_straight_strokes", 1);
         co.nontrivial = !skipped && res.inside > 0 && res.outside > 0;
         if let Some(v) = res.violation {
             co.viol("C04", format!("stroke {} wide: {}", width, v));
